@@ -88,6 +88,8 @@ pub enum RejectKind {
     CommitLower,
     TruncateBeyond,
     TruncateBelowPurged,
+    /// A batch whose first 1-3 entries are legal and whose last entry is refused.
+    BatchBadTail,
 }
 
 #[derive(Debug, Clone, Copy, PartialEq, Eq, Hash, Serialize, Deserialize)]
@@ -341,6 +343,8 @@ fn reject_kind() -> impl Strategy<Value = RejectKind> {
         Just(RejectKind::CommitLower),
         Just(RejectKind::TruncateBeyond),
         Just(RejectKind::TruncateBelowPurged),
+        Just(RejectKind::BatchBadTail),
+        Just(RejectKind::BatchBadTail),
     ]
 }
 
